@@ -87,10 +87,19 @@ def r_compact(idx, rep, rule="R-COMPACT", modules=None, floor=3):
                     if isinstance(st, ast.Assign) and isinstance(st.targets[0], ast.Subscript) and u(st.targets[0].value) == b:
                         blk = _block_of(pm, st)
                         with_inc = any(s in (blk or []) for s in inc_sts)
-                        if not with_inc:
+                        # a peeled first iteration: `B[0] = x` followed, in the same block, by `counter = 1` (the counter was 0 until then)
+                        k_ = const(_first_index_node(st.targets[0]))
+                        peeled = k_ == 0 and any(isinstance(s2, ast.Assign) and u(s2.targets[0]) == counter and const(s2.value) == 1 and s2.lineno >= st.lineno
+                                                 for s2 in (blk or [])) and not any(i_.lineno < st.lineno for i_ in inc_sts)
+                        if not with_inc and not peeled:
                             key = "%s|%s[%s] outside the increment block" % (f.key, b, u(st.targets[0].slice))
                             rep.check(_first_index(st.targets[0]) == counter, rule, key, "%s:%d" % (f.module.relpath, st.lineno),
                                       "buffer %s is returned as %s[:%s] but written at `%s` away from the increment" % (b, b, counter, _first_index(st.targets[0])))
+
+
+def _first_index_node(tgt):
+    sl = tgt.slice
+    return sl.elts[0] if isinstance(sl, ast.Tuple) and sl.elts else sl
 
 
 def _block_of(pm, st):
